@@ -41,8 +41,9 @@ type FEntry struct {
 // FMap is the field mapping carried by the data edges that leave a node (Workflow only):
 // To (the successor's input is a map) or Take (FromField: the successor's input is that field).
 type FMap struct {
-	To   []FEntry `json:"to,omitempty"`
-	Take *int     `json:"take,omitempty"`
+	To      []FEntry `json:"to,omitempty"`
+	Take    *int     `json:"take,omitempty"`
+	TakeMap bool     `json:"takemap,omitempty"` // Take: the field holds a (nested) map, the successor's input is a map
 }
 
 type Prog struct {
@@ -99,7 +100,10 @@ func (p *Prog) inMap() bool {
 // type of the value the successors of p receive
 func (p *Prog) outMap() bool {
 	if p.OutMap != nil {
-		return p.OutMap.Take == nil
+		if p.OutMap.Take != nil {
+			return p.OutMap.TakeMap
+		}
+		return true
 	}
 	return p.rawOutMap()
 }
